@@ -156,7 +156,7 @@ def model_check(name, case, rec):
 # ---------------------------------------------------------------------------------------------------------------
 # mixed wrappers
 # ---------------------------------------------------------------------------------------------------------------
-MIXED = ["ThreeFieldVariation(NeoHooke)", "NearlyIncompressible(NeoHooke)", "ThreeFieldVariation(tt:yeoh)", "NearlyIncompressible(tt:mooney_rivlin)",
+MIXED = ["ThreeFieldVariation(NeoHooke)", "NearlyIncompressible(NeoHooke)", "NearlyIncompressible(NeoHooke, U=K/4(J^2-1-2lnJ))", "ThreeFieldVariation(tt:yeoh)", "NearlyIncompressible(tt:mooney_rivlin)",
          "ThreeFieldVariation(OgdenRoxburgh)", "NearlyIncompressible(jax:yeoh)"]
 
 
@@ -178,6 +178,10 @@ def mixed_build(name, c):
         return fem.NearlyIncompressible(gmat.build("tt:mooney_rivlin", {"C10": c["mu"] / 2, "C01": c["c2"]}), bulk=c["bulk"]), 0
     if name == "NearlyIncompressible(jax:yeoh)":
         return fem.NearlyIncompressible(gmat.build("jax:yeoh", {"C10": c["mu"] / 2, "C20": c["c2"], "C30": 0.01}), bulk=c["bulk"]), 0
+    if name == "NearlyIncompressible(NeoHooke, U=K/4(J^2-1-2lnJ))":
+        # user-supplied (non-quadratic) volumetric law: U' = K/2 (J - 1/J), U'' = K/2 (1 + 1/J^2)
+        return fem.NearlyIncompressible(fem.NeoHooke(mu=c["mu"]), bulk=c["bulk"], dUdJ=lambda J, bulk: bulk / 2 * (J - 1 / J),
+                                        d2UdJdJ=lambda J, bulk: bulk / 2 * (1 + 1 / J**2)), 0
     if name == "ThreeFieldVariation(OgdenRoxburgh)":
         return fem.ThreeFieldVariation(fem.OgdenRoxburgh(fem.NeoHooke(mu=c["mu"], bulk=c["bulk"]), r=3.0, m=1.0, beta=c["c2"])), 1
     raise KeyError(name)
